@@ -7,6 +7,7 @@ import PdfModel.Model.XrefStreamRead
 import PdfModel.Drv.Obj
 import PdfModel.Model.DeriveTower
 import PdfModel.Generated.Schemas
+import PdfModel.Drv.C01Typed
 
 /-! Line-protocol handler for the C01 streams (bytes as hex, `-` = empty). The entry points that the C03
     package already serves (`c03.word`, `.peek`, `.back`, `.expect`, `.nextstream`, `.readn`, `.setpos`,
@@ -174,6 +175,6 @@ def handle (args : List String) : String :=
       (fun n => Derive.isHand G (.leaf n))).eraseDups
     if Derive.registryOkB G then s!"ok schemas={G.length} defaults={nd} hand-leaves={",".intercalate hand}"
     else s!"not-ok defaults-that-do-not-evaluate-in={",".intercalate bad}"
-  | _ => "bad-request"
+  | args => DrvC01T.handle args      -- c01.date, c01.cs, c01.font: Drv/C01Typed.lean
 
 end DrvC01
